@@ -348,6 +348,93 @@ def run_item(dec: Decoder, hist: tuple, frames: dict[str, str], rel: list[dict],
                                    "real_burst": real_burst}}
 
 
+def held_histories(rng: random.Random, n_random: int) -> list[list[str]]:
+    """Packet-log sessions in which a controller / UFH controller sends its per-zone arrays in several packets within the
+    3 s in which the gateway merges them (gateway.Gateway._msg_handler + dispatcher.detect_array_fragment), among other
+    traffic.  What an application was handed must not change afterwards."""
+    CTL, UFC = "01:145038", "02:044446"
+    t0 = dt(2024, 2, 11, 9, 0, 0)
+
+    def arr(code: str, src: str, zones: list[int], elem) -> str:
+        p = "".join(elem(z) for z in zones)
+        return f" I --- {src} --:------ {src} {code} {len(p) // 2:03d} {p}"
+
+    e000a = lambda z: f"{z:02X}1001F40DAC"          # noqa: E731
+    e2309 = lambda z: f"{z:02X}07D0"                # noqa: E731
+    e30c9 = lambda z: f"{z:02X}0834"                # noqa: E731
+    e22c9 = lambda z: f"{z:02X}076C0A2801"          # noqa: E731
+    hists: list[list[tuple[float, str]]] = []
+    splits = [[8, 2, 1], [8, 3], [4, 4, 4], [1, 1, 1], [6, 1]]
+    for code, src, el in (("000A", CTL, e000a), ("22C9", UFC, e22c9), ("2309", CTL, e2309), ("30C9", CTL, e30c9)):
+        for sp in splits:
+            h, t, z = [(0.0, f" I --- {CTL} --:------ {CTL} 1F09 003 FF073F")], 1.0, 0
+            for n in sp:
+                h.append((t, arr(code, src, list(range(z, z + n)), el)))
+                z += n
+                t += rng.choice((0.05, 0.4, 1.2, 2.9))
+            h.append((t + 5.0, f" I --- 04:189078 --:------ {CTL} 30C9 003 0007D0"))
+            h.append((t + 5.5, arr(code, src, [0, 1], el)))           # a later, complete, shorter array
+            hists.append(h)
+    for _ in range(n_random):
+        h, t = [], 0.0
+        for _j in range(rng.randint(3, 12)):
+            code, src, el = rng.choice((("000A", CTL, e000a), ("22C9", UFC, e22c9), ("2309", CTL, e2309), ("30C9", CTL, e30c9)))
+            z0 = rng.randint(0, 8)
+            h.append((t, arr(code, src, list(range(z0, z0 + rng.randint(1, 4))), el)))
+            t += rng.choice((0.05, 0.5, 2.9, 3.1, 10.0))
+        hists.append(h)
+    return [[f"{(t0 + td(seconds=t)).isoformat(timespec='microseconds')} 045 {f}\n" for t, f in h] for h in hists]
+
+
+def run_held(lines: list[str]) -> dict:
+    """Replay `lines` through a real Gateway; every message handed to the application is kept; its payload is digested
+    when it is handed over and once more after the whole session.  Returns a DecodeTrace item (clause b)."""
+    import asyncio
+
+    from harness import vloop
+
+    held: list[tuple[Any, str, str]] = []
+
+    def dg(pl: Any) -> str:
+        try:
+            return digest(json.dumps(pl, sort_keys=True, allow_nan=False))
+        except Exception:  # noqa: BLE001
+            return digest(repr(pl))
+
+    async def go() -> None:
+        from ramses_rf import Gateway
+
+        fd, path = tempfile.mkstemp(suffix=".log", prefix="c05held_")
+        os.write(fd, "".join(lines).encode())
+        os.close(fd)
+        fh = open(path)
+        try:
+            gwy = Gateway(None, input_file=fh, config={"disable_discovery": True, "enforce_known_list": False})
+            gwy.add_msg_handler(lambda m: held.append((m, dg(m.payload), str(m._pkt._frame))))
+            await gwy.start()
+            await gwy._protocol.wait_for_connection_lost()
+            for _ in range(12):
+                await asyncio.sleep(0)
+            await gwy.stop()
+        finally:
+            fh.close()
+            os.unlink(path)
+
+    vloop.run(go)
+
+    def evt(p: int, frame: str, js: str) -> dict:
+        pl = frame.split()[-1]
+        return {"t": "dec", "p": p, "ok": 1, "json": 1, "js": js, "code": frame.split()[-3], "b0": pl[0:2], "b1": pl[2:4],
+                "b2": pl[4:6], "arr": 0, "els": [], "idx": [], "eb": [], "rng": []}
+
+    evs = [evt(i, f, js) for i, (_m, js, f) in enumerate(held, 1)]
+    evs += [evt(i, f, dg(m.payload)) for i, (m, _js, f) in enumerate(held, 1)]
+    frames = {f"M{i:03d}": f for i, (_m, _js, f) in enumerate(held, 1)}
+    return {"item": {"np": max(1, len(held)), "rel": [], "ev": evs},
+            "meta": {"frames": frames, "hist": [["held-by-application", "re-read after the session"]], "rel": [], "infos": {},
+                     "real_burst": False, "held": lines}}
+
+
 def judge(chk: Check, recs: list[dict], workers: int, stats: dict) -> None:
     res = rx.validate_batch("DecodeTrace", [r["item"] for r in recs], workers=workers, chunk=2500, timeout=1500)
     stats["trace_states"] = stats.get("trace_states", 0) + res["states"]
@@ -360,6 +447,13 @@ def judge(chk: Check, recs: list[dict], workers: int, stats: dict) -> None:
         for ln, clause in fail[2]:
             replay = {"frames": meta["frames"], "hist": meta["hist"], "rel": meta["rel"],
                       "real_burst": meta["real_burst"]}
+            if "held" in meta:
+                e = item["ev"][ln - 1]
+                f = meta["frames"][ids[e["p"]]]
+                chk.violation(f"b:{e['code']}/{f[:2].strip()}:held-message",
+                              f"the payload of the message of {f!r}, as handed to the application by a real Gateway, read differently "
+                              f"after the packets that followed it (clause {clause})", {"held": meta["held"]})
+                continue
             if clause == "d":
                 r0 = meta["rel"][0]
                 f = meta["frames"][r0["arr"]]
@@ -612,6 +706,12 @@ def main(tier: str, replay: str | None) -> None:
                                                 "hist": [["dec", "A"], ["...", ""], ["dec", "A"]], "rel": [],
                                                 "infos": {}, "real_burst": False}})
         src_count["first_vs_last_items"] = len(again)
+        # messages an application holds on to, re-read after the packets that followed (fragment merging at the gateway)
+        hh = held_histories(rng, 30 if tier != "quick" else 8)
+        held_recs = [run_held(h) for h in hh]
+        recs += held_recs
+        src_count["gateway_sessions_with_held_messages"] = len(hh)
+        src_count["held_messages_re_read"] = sum(len(r["meta"]["frames"]) for r in held_recs)
         stats["t_exec"] = round(time.time() - t0, 1)
 
         t0 = time.time()
@@ -662,6 +762,11 @@ def do_replay(path: str) -> None:
     obj = json.load(open(path))
     rp = obj.get("replay", obj)
     print(f"replaying {obj.get('key', '?')}: {obj.get('what', '')}")
+    if "held" in rp:
+        rec = run_held(rp["held"])
+        res = rx.validate_batch("DecodeTrace", [rec["item"]], workers=1)
+        print(f"{len(rec['meta']['frames'])} messages held; TLC verdict:", res["rejects"] or "accepted")
+        sys.exit(1 if res["rejects"] else 0)
     dec = Decoder()
     rec = run_item(dec, tuple(tuple(s) for s in rp["hist"]), rp["frames"], rp["rel"], rp.get("real_burst", True))
     for e in rec["item"]["ev"]:
